@@ -9,13 +9,18 @@ bad = []
 CENTRES = {13: "B", 14: "C", 15: "N", 16: "O"}
 
 
-def build(centre, nb, along_z=False, btypes=None, fc=0, spin=0):
+def build(centre, nb, along_z=False, btypes=None, fc=0, spin=0, ntypes=None, neighbour="C"):
     m = ml.Molecule()
     c = ml.Atom(centre, formal_charge=fc, formal_spin=spin)
     m.add_atom(c, [0.1, -0.2, 0.3], 0.0)
     dirs = [[0, 0, 1.4], [1.3, 0.2, -0.4], [-0.7, 1.1, -0.3]] if along_z else [[1.1, 0.3, 0.8], [-1.2, 0.4, 0.1], [0.2, -1.3, 0.2]]
     for j in range(nb):
-        a = ml.Atom("C")
+        a = ml.Atom(neighbour)
+        if ntypes and j < len(ntypes) and isinstance(ntypes[j], int):
+            try:
+                a.atype = ml.AtomType(ntypes[j])
+            except ValueError:
+                pass
         m.add_atom(a, np.array([0.1, -0.2, 0.3]) + dirs[j], 0.0)
         b = m.connect(0, j + 1)
         if btypes and j < len(btypes) and isinstance(btypes[j], int):
@@ -26,15 +31,29 @@ def build(centre, nb, along_z=False, btypes=None, fc=0, spin=0):
     return m, c
 
 
+def order(b):
+    v = int(b.btype)
+    return 1.5 if v == 20 else (0.0 if v in (10, 11, 98, 101) else (float(v) if 0 <= v <= 6 else 1.0))
+
+
 def expected(m, c):
+    if c.element.group not in (13, 14, 15, 16):
+        return 0
     ve = {13: 3, 14: 4, 15: 5, 16: 6}[c.element.group]
     e = ve - c.formal_charge - abs(c.formal_spin)
-    return max(0, 4 - abs(4 - e) - math.ceil(m.bonded_valence(c)))
+    # the bonded valence of the statement: the orders of the centre's bonds, whatever is at their other end
+    return max(0, 4 - abs(4 - e) - math.ceil(sum(order(b) for b in m.bonds if c in b)))
 
 
-def check(m, c, label):
+def check(m, c, label, default=False):
     n0, b0 = m.n_atoms, m.n_bonds
     coords0, want = m.coords.copy(), expected(m, c)
+    if default:
+        m.add_implicit_hydrogens()
+        got = sum(1 for x in m.atoms[n0:] if x in m.connected_atoms(c))
+        if got != want or m.n_atoms - n0 != want:
+            bad.append(f"{label}: add_implicit_hydrogens() without arguments gave {got} hydrogens to the atom ({m.n_atoms - n0} added in all), expected {want}")
+        return
     m.add_implicit_hydrogens(c)
     added = m.atoms[n0:]
     if len(added) != want:
@@ -78,8 +97,26 @@ if w.get("op") == "mean_plane":
             break
 elif w.get("op") == "count":
     g = w.get("group") if w.get("group") in CENTRES else 14
-    m, c = build(CENTRES[g], int(w.get("neighbours", 0)), btypes=w.get("btypes"), fc=int(w.get("fc") or 0), spin=int(w.get("spin") or 0))
-    check(m, c, f"{CENTRES[g]} with {w.get('neighbours')} neighbours")
+    m, c = build(CENTRES[g], int(w.get("neighbours", 0)), btypes=w.get("btypes"), fc=int(w.get("fc") or 0), spin=int(w.get("spin") or 0), ntypes=w.get("neighbour_types"))
+    check(m, c, f"{CENTRES[g]} with {w.get('neighbours')} neighbours (types {w.get('neighbour_types')})")
+    for at in ml.AtomType:
+        for bt in (ml.BondType.Single, ml.BondType.Double):
+            m, c = build("C", 1, btypes=[int(bt)], ntypes=[int(at)], neighbour="Zr")
+            check(m, c, f"C bonded ({bt.name}) to a {at.name} atom")
+elif w.get("op") == "default-selection":
+    # one representative element per group; the neighbour (if any) is a metal that takes no hydrogens itself
+    by_group = {}
+    for el in ml.Element:
+        try:
+            if el.group and el.z > 0:
+                by_group.setdefault(int(el.group), el)
+        except Exception:
+            pass
+    for g_, el in sorted(by_group.items()):
+        for nb in (0, 1):
+            for bt in ((ml.BondType.Single, ml.BondType.Ligand) if nb else (None,)):
+                m, c = build(el.name, nb, btypes=[int(bt)] if bt is not None else None, neighbour="Fe")
+                check(m, c, f"{el.name} (group {g_}) with {nb} neighbours", default=True)
 else:
     for centre in ("C", "N", "O"):
         for nb in (0, 1, 2, 3):
